@@ -444,8 +444,10 @@ class _ConnectedClientAPI(AsyncStreamClient[_T_Response]):
                 self.__closing = True
                 await self.__client.aclose()
         except self.backend().get_cancelled_exc_class():
+            # Cancelled, maybe while waiting for a pending send_packet() to release the lock: close abruptly.
+            # NOTE: The low-level client would refuse to be closed during a send, so its transport is closed directly.
             self.__closing = True
-            await aclose_forcefully(self.__client)
+            await self.__client._aclose_forcefully()
             raise
 
     async def send_packet(self, packet: _T_Response, /) -> None:
